@@ -789,11 +789,11 @@ impl Sim {
             .resource::<BufferedMutations>()
             .verif_snapshot()
             .into_iter()
-            .map(|(u, t, n, body)| {
+            .map(|(u, t, n, idx, body)| {
                 let ents = self.with_names(Some(ci), |names| {
                     wire::decode_mutate_body(&mut wire::Cur::new(&body), names).map(|x| Value::Object(x.0))
                 });
-                json!({"upd": u.get(), "tick": t.get(), "cnt": if self.cfg.track { n as i64 } else { -1 },
+                json!({"upd": u.get(), "tick": t.get(), "idx": idx, "cnt": if self.cfg.track { n as i64 } else { -1 },
                        "ents": ents.unwrap_or_else(|e| json!({"?": e}))})
             })
             .collect();
